@@ -403,7 +403,7 @@ def shrink(ctx, events):
     def fails(evs):
         eng = kdrv.Engine(workdir=ctx.work)
         try:
-            run = XRunner(c07.NullCtx(), eng, fork=False)
+            run = XRunner(c07.NullCtx(ctx.work), eng, fork=False)
             try:
                 replay_events(run, evs[:-1])
                 run.fork = True
@@ -515,7 +515,7 @@ def replay(ctx, data):
         return 2
     eng = kdrv.Engine(workdir=ctx.work)
     try:
-        run_ = XRunner(c07.NullCtx(), eng)
+        run_ = XRunner(c07.NullCtx(ctx.work), eng)
         replay_events(run_, events)
         for sig, wit, what in run_.hits:
             print('REPRODUCED:', what)
